@@ -36,18 +36,18 @@ META = {
                  "renaming) + decide-checked equality of tables regenerated from the live code + correspondence "
                  "of the real helper functions and of real exports with the model",
     "level_text": "Kernel-checked: dtype_class_preserved, float_width_follows_flag, requested_width_kept, "
-                  "reconcile_class_preserved, int_kept_or_int64 (all dtype codes), prune_keeps_positional_partial "
-                  "(all input lists; the full statement is refuted by a checked witness: an unused NCHW-flagged "
-                  "input is dropped - known finding), pruneFixed_keeps_positional (the candidate fix), "
+                  "reconcile_class_preserved, int_kept_or_int64 (all dtype codes), prune_keeps_positional (full strength, all "
+                  "argument lists: no positional input is ever dropped or reordered, NCHW-flagged or not), "
                   "rename_exact_and_injective (all rename requests). The live policy function, the live "
                   "Cast/keep decision and the live always-keep rule are tabulated each run and proved equal to "
                   "the reference (decide +kernel).",
     "level_note": "Trusted: Lean kernel + 3 axioms; the tabulating/probing harness. Outputs' order, count, "
                   "rank, static dims and the float width actually bound by the lowerings are checked on "
                   "generated programs x configurations (sampling), not proved. Names are structured in the model "
-                  "(in_<i>, in_<i>_nchw, other); the string form is tied by tabulation. Known findings: unused "
-                  "NCHW-flagged input dropped (and input_names then raises); custom names on an output that "
-                  "aliases an input or another output raise.",
+                  "(in_<i>, in_<i>_nchw, other); the string form is tied by tabulation. Known findings: custom names "
+                  "on an output that aliases an input or another output raise / rename the input; complex result "
+                  "with outputs_as_nchw loses the pair dimension; float16 unary results declared FLOAT. Fixed in "
+                  "/repo dfda5c9: unused NCHW-flagged input dropped.",
     "design_ref": "DESIGN.md §3 C05",
 }
 
@@ -751,7 +751,7 @@ def directed_cases() -> list:
     """Seed-independent cases: the replayed defects and the behaviours a breaking change would touch."""
     L = lambda op, arg=None, **k: ({"op": op, "arg": arg, **k} if arg is not None else {"op": op, **k})
     return [
-        # unused NCHW-flagged input (known: dropped) / the same with input_names (known: raises)
+        # unused NCHW-flagged input must stay (was dropped before /repo dfda5c9) / the same with input_names
         (_p(["img", "vec"], [False, True], [L("scale", 1)], "single"), {"inputs_as_nchw": [0]}),
         (_p(["img", "vec"], [False, True], [L("scale", 1)], "single"),
          {"inputs_as_nchw": [0], "input_names": ["image", "vec"]}),
